@@ -279,6 +279,29 @@ def rules_rule(ctx, prefix):
     calls = d.calls_deep(curly, ctx.sc) if curly else []
     ok = "parse_rules" in calls and value_routine(ctx) in calls
     obs.append(ob("%s.rules/dispatch" % prefix, ok, ctx.where(f), "at-rule blocks go to parse_rules (rule lists) or %s (declaration lists): %s" % (value_routine(ctx), ok)))
+    # the choice between the two is made by the table alone: inside the `{` arm (or the helper it hands the block to) the
+    # rule-list parser is called under boolean names / table tests only, not under further comparisons
+    import guards as gdm
+    extra = []
+    scopes = [curly.body] if curly else []
+    for g in ctx.sc.fns:
+        if g.body and g is not f and not g.base and g.name in calls and any(x.get("k") == "call" and sir.call_name(x) == "parse_rules" for x in sir.walk(g.body)) and g.name != "parse_rules":
+            scopes.append(g.body)
+    for sc_ in scopes:
+        GG = gdm.guards_of(sc_)
+        for x in sir.walk(sc_):
+            if x.get("k") == "call" and sir.call_name(x) == "parse_rules":
+                for kind, subj, pol in GG.get(id(x), []):
+                    if kind != "cond":
+                        continue
+                    c_ = subj
+                    while c_.get("k") in ("paren",) or (c_.get("k") == "unary" and c_.get("op") in ("!", "*")):
+                        c_ = c_["e"]
+                    plain = c_.get("k") in ("path", "field", "mac", "match") or (c_.get("k") == "call" and len(c_["args"]) == 1) or (c_.get("k") == "mcall" and c_["m"] == "contains")
+                    if not plain:
+                        extra.append(sir.expr_str(subj)[:60])
+    obs.append(ob("%s.rules/table-only" % prefix, not extra, ctx.where(f), "the block of a rule-bearing at-rule is parsed as a rule list whenever the table says so" if not extra else "the rule-list parser runs only under the additional condition(s) %s" % extra,
+                  witness=None if not extra else "past that condition `@media x{.a .b{}}` is emitted as `.a.b` and its classes are not prefixed"))
     return obs
 
 
@@ -542,8 +565,54 @@ def calc_rule_by_modes(ctx, prefix, d, modes, math):
         ahead = any(x.get("k") == "mcall" and x["m"] in ("try_parse", "peek_including_whitespace", "peek") for x in nodes)
         behind = any(x.get("k") == "path" and x.get("s") == "prev_token" for x in nodes)
         calc = bool(math_modes) and bool(plain_modes or len(modes) == len(math_modes))
-        okw = {"+", "-"} <= chars and ahead and behind and calc
-        dsw = "tests for `+`/`-`: %s; looks at the next token: %s; looks at the previous token: %s; whitespace tokens are read only in the math mode(s): %s" % ({"+", "-"} <= chars, ahead, behind, calc)
+
+        def chars_near(pred):
+            """operator characters tested in the top-level statements of the arm that contain a node satisfying pred (following
+            calls to private helpers)"""
+            out = set()
+            stmts = []
+            bodies = [ws.body]
+            seen_h = set()
+            for _d in range(2):   # the tests may sit in private helpers the arm hands its work to
+                for bd in list(bodies):
+                    for x in sir.walk(bd):
+                        if x.get("k") == "call":
+                            for g in ctx.sc.fns:
+                                if g.name == sir.call_name(x) and g.body and g is not f and not g.base and id(g) not in seen_h:
+                                    seen_h.add(id(g))
+                                    bodies.append(g.body)
+            for bd in bodies:
+                pm_ = sir.parent_map(bd)
+                for x in sir.walk(bd):
+                    if not pred(x):
+                        continue
+                    # the innermost statement of a block that contains the node
+                    cur_ = x
+                    while id(cur_) in pm_:
+                        par_ = pm_[id(cur_)]
+                        if par_.get("k") == "block" and any(s_ is cur_ for s_ in par_["stmts"]):
+                            break
+                        cur_ = par_
+                    if not any(s_ is cur_ for s_ in stmts):
+                        stmts.append(cur_)
+            for st_ in stmts:
+                ns = list(sir.walk(st_))
+                local_closures = {l_["pat"]["name"]: l_["init"] for l_ in sir.walk(ws.body) if l_.get("k") == "local" and l_["pat"].get("k") == "p_ident" and l_.get("init") is not None and l_["init"].get("k") == "closure"}
+                for x in list(ns):
+                    if x.get("k") == "call":
+                        for g in ctx.sc.fns:
+                            if g.name == sir.call_name(x) and g.body and g is not f and not g.base:
+                                ns += list(sir.walk(g.body))
+                        if x["f"].get("k") == "path" and len(x["f"]["segs"]) == 1 and x["f"]["segs"][0] in local_closures:
+                            ns += list(sir.walk(local_closures[x["f"]["segs"][0]]["body"]))   # a test shared through a local closure
+                out |= set(x.get("v") for x in ns if x.get("k") == "lit" and x.get("t") == "char")
+                out |= set(y["e"].get("v") for x in ns if x.get("k") in ("arm", "mac", "let", "local") for y in sir.walk(x.get("pat") or {}) if y.get("k") == "p_lit")
+            return out
+        ch_ahead = chars_near(lambda x: x.get("k") == "mcall" and x["m"] in ("try_parse", "peek_including_whitespace", "peek"))
+        ch_behind = chars_near(lambda x: x.get("k") == "path" and x.get("s") == "prev_token")
+        both = {"+", "-"} <= ch_ahead and {"+", "-"} <= ch_behind
+        okw = {"+", "-"} <= chars and both and ahead and behind and calc
+        dsw = "tests for `+`/`-`: next token %s, previous token %s; looks at the next token: %s; looks at the previous token: %s; whitespace tokens are read only in the math mode(s): %s" % (sorted(c_ for c_ in ch_ahead if c_ in "+-"), sorted(c_ for c_ in ch_behind if c_ in "+-"), ahead, behind, calc)
     obs.append(ob("%s.calc/whitespace-arm" % prefix, okw if not und else None, where, "whitespace is kept when the next or the previous token is `+` or `-`: %s" % dsw))
     return obs
 
@@ -1321,6 +1390,74 @@ def capture_offsets_rule(ctx, prefix):
 
 # ------------------------------------------------------------------ C18
 
+def import_extra_rules(ctx, prefix, f, where):
+    """obligations added after the seventh wave of seeded changes"""
+    import guards as gdm
+    ob = ctx.ob
+    obs = []
+    sc = ctx.sc
+    G = gdm.guards_of(f.body)
+    # (1) every import that parsed gets its placeholder: inside the rewriter the comment is written unconditionally
+    comments = [n for n in sir.walk(f.body) if n.get("k") == "call" and (sir.call_path(n) or "").endswith("Token::Comment")]
+    conds = []
+    for c in comments:
+        for kind, subj, pol in G.get(id(c), []):
+            t = sir.expr_str(subj) if kind == "cond" else sir.expr_str(subj[0]) + "~" + subj[1]
+            if kind == "cond" and re.search(r"import_sign|at_keyword|\"import\"", t):
+                continue
+            if kind == "pat" and re.search(r"import_sign|AtKeyword|peek", t):
+                continue
+            conds.append(t[:60])
+    obs.append(ob("%s.placeholder/unconditional" % prefix, bool(comments) and not conds, where,
+                  "the placeholder comment is written for every import that parses" if not conds else "the placeholder comment is written only under %s" % conds[:3],
+                  witness=None if not conds else "`@import 'a' screen; @import 'a' print;` leaves the second import without a placeholder"))
+    # (2) a malformed import is skipped up to the end of the at-rule: its `;` or its block
+    rec = None
+    for n in sir.walk(f.body):
+        if n.get("k") == "if" and "is_err" in sir.expr_str(n["cond"]):
+            for lp in sir.walk(n["then"]):
+                if lp.get("k") in ("while", "loop", "for") and any(x.get("k") == "mcall" and x["m"] == "next" for x in sir.walk(lp)):
+                    rec = lp
+    if rec is None:
+        obs.append(ob("%s.recover/stops" % prefix, None, where, "the recovery loop after a malformed @import is not written in a form this rule reads"))
+    else:
+        GR = gdm.guards_of(rec)
+        stops = set()
+        for b in sir.walk(rec["body"]):
+            if b.get("k") in ("break", "return"):
+                for kind, subj, pol in GR.get(id(b), []):
+                    t = (sir.expr_str(subj) if kind == "cond" else subj[1])
+                    if pol:
+                        stops |= set(re.findall(r"Token::(\w+)", t))
+                        if kind == "cond":   # `matches!(..)` / a match with boolean arms used as the condition
+                            stops |= set(c_["segs"][-1] for c_ in sir.walk(subj) if c_.get("k") in ("p_path", "p_ts", "p_struct") and len(c_.get("segs", [])) >= 2 and c_["segs"][-2] == "Token")
+        okr = {"Semicolon", "CurlyBracketBlock"} <= stops
+        obs.append(ob("%s.recover/stops" % prefix, okr, where, "after a malformed @import the input is skipped up to %s (an at-rule ends at its `;` or at its block)" % sorted(stops),
+                      witness=None if okr else "`@import 'a' screen { } .x{} @import 'b';` swallows `.x{}` and the next import"))
+    # (3) the media list is copied with its nested blocks: every block-opening token recurses
+    roles = _roles(ctx)
+    dm = roles.get("import-media")
+    if dm is not None:
+        missing = []
+        for tok in ("SquareBracketBlock", "ParenthesisBlock", "Function"):
+            a = dm.arm(tok)
+            calls = dm.calls_deep(a, sc) if a is not None else []
+            if a is None or "_" in a.variants or not ("append_nested_block" in calls and "append_nested_block_close" in calls):
+                missing.append(tok)
+        obs.append(ob("%s.wrap/media-blocks" % prefix, not missing, ctx.where(dm.fn), "nested blocks of the media list are copied with their content and closed" if not missing else "%s in the media list is copied as a bare token: its content and closing bracket are lost" % missing,
+                      witness=None if not missing else "`@import 'a' screen and env(foo);` emits `@media screen and env({...` unbalanced"))
+    # (4) a flagged position is reported: the warning sink never drops a warning
+    aw = [g for g in sc.fns if g.name == "add_warning" and g.base == "StyleSheetTransformer" and g.body]
+    if aw:
+        GA = gdm.guards_of(aw[0].body)
+        pushes = [n for n in sir.walk(aw[0].body) if n.get("k") == "mcall" and n["m"] == "push" and "warnings" in sir.expr_str(n["recv"])]
+        cond_push = [p_ for p_ in pushes if GA.get(id(p_))]
+        okw = len(pushes) >= 1 and not cond_push and not any(n.get("k") == "return" for n in sir.walk(aw[0].body))
+        obs.append(ob("%s.position/warning-sink" % prefix, okw, ctx.where(aw[0]), "add_warning records every warning it is given: %s" % okw,
+                      witness=None if okw else "`.a{}@import 'x';@import 'y';` flags only the first misplaced import"))
+    return obs
+
+
 def import_rules(ctx, prefix):
     ob = ctx.ob
     obs = []
@@ -1465,6 +1602,7 @@ def import_rules(ctx, prefix):
                       witness=None if uncond else "`@media screen{.a{}} @import './a';` is rewritten without IllegalImportPosition"))
         obs.append(ob("%s.position/flag" % prefix, init == ["True"] and len(s) == 1, ctx.where(g), "at_file_start starts true and is cleared after the first rule: %s %s" % (init, s)))
     # without a sign the rule passes through the generic at-rule path
+    obs += import_extra_rules(ctx, prefix, f, where)
     # decided on abstract paths (lib/absint.py): with a sign configured the rewriter is reached, and only for the keyword `import`;
     # without a sign no path reaches it
     import absint as ai
